@@ -197,6 +197,11 @@ fn slots6(x: &Ipv6Extensions) -> String {
     )
 }
 
+
+fn slots_total(s: &str, sep: char) -> usize {
+    s.split(sep).filter(|t| *t != "-").map(|t| t.rsplit(':').next().map(|h| if h == "-" { 0 } else { h.len() / 2 }).unwrap()).sum()
+}
+
 // ---------------------------------------------------------------- the writers under test
 enum Val {
     Eth(Ethernet2Header),
@@ -535,14 +540,14 @@ fn bld_reference(b: &Bld) -> String {
                 let proto = x.set_next_headers(IpNumber(tr_proto));
                 let ip = cut(h.header_len());
                 let s = slot_auth(&x.auth);
-                pos.set(pos.get() + x.header_len());
+                pos.set(pos.get() + slots_total(&s, '/'));
                 format!("4/{}/{}/{}", ip, proto.0, s)
             }
             IpHeaders::Ipv6(_, mut x) => {
                 let nh = x.set_next_headers(IpNumber(tr_proto));
                 let ip = cut(Ipv6Header::LEN);
                 let s = slots6(&x).replace(';', "/");
-                pos.set(pos.get() + x.header_len());
+                pos.set(pos.get() + slots_total(&s, '/'));
                 format!("6/{}/{}/{}", ip, nh.0, s)
             }
         }
